@@ -510,15 +510,52 @@ Qed.
 Definition sel_first (t : ttype) : bool :=
   vtok_ok 0 t && negb (is_t t TCDO) && negb (is_t t TCDC) && negb (is_t t TAtKeyword) && negb (is_t t TCustomPropertyName).
 
+(* the states in which rulesets and at-rules are read: the stylesheet and the block of @media, @supports, ... *)
+Definition rule_ctx (s : pstate) : Prop := s = SStylesheet \/ s = SAtRuleRuleList.
+
+Lemma rule_dispatch s st0 F q : rule_ctx s ->
+  is_t (ptt q) TCDO = false -> is_t (ptt q) TCDC = false -> is_t (ptt q) TAtKeyword = false -> is_t (ptt q) TComment = false ->
+  is_t (ptt q) TCustomPropertyName = false -> is_t (ptt q) TError = false -> is_t (ptt q) TRightBrace = false ->
+  match s :: st0 with
+  | [] => PPanic
+  | SStylesheet :: _ => parse_stylesheet F q
+  | SDeclarationList :: _ => parse_declaration_list F q
+  | SAtRuleRuleList :: _ => parse_at_rule_rule_list F q
+  | SAtRuleDeclarationList :: _ => parse_at_rule_declaration_list F q
+  | SAtRuleUnknown :: _ => parse_at_rule_unknown q
+  | SQualifiedRuleDeclarationList :: _ => parse_qualified_rule_declaration_list F q
+  end = parse_qualified_rule F q.
+Proof.
+  intros [->| ->] H1 H2 H3 H4 H5 H6 H7.
+  - unfold parse_stylesheet. rewrite H1, H2, H3, H4, H5, H6. reflexivity.
+  - unfold parse_at_rule_rule_list. rewrite H7, H6, H3. reflexivity.
+Qed.
+
+Lemma at_dispatch s st0 F q : rule_ctx s -> ptt q = TAtKeyword ->
+  match s :: st0 with
+  | [] => PPanic
+  | SStylesheet :: _ => parse_stylesheet F q
+  | SDeclarationList :: _ => parse_declaration_list F q
+  | SAtRuleRuleList :: _ => parse_at_rule_rule_list F q
+  | SAtRuleDeclarationList :: _ => parse_at_rule_declaration_list F q
+  | SAtRuleUnknown :: _ => parse_at_rule_unknown q
+  | SQualifiedRuleDeclarationList :: _ => parse_qualified_rule_declaration_list F q
+  end = parse_at_rule F q.
+Proof.
+  intros [->| ->] H.
+  - unfold parse_stylesheet. rewrite H. reflexivity.
+  - unfold parse_at_rule_rule_list. rewrite H. reflexivity.
+Qed.
+
 (* a ruleset: selector tokens, '{' *)
-Lemma step_begin p st0 o1 t1 b1 (sl : list wtok) o2 lb ts :
-  wf_state p (SStylesheet :: st0) (src_toks ((o1, (t1, b1)) :: sl) ++ optws o2 ++ (TLeftBrace, lb) :: ts) ->
+Lemma step_begin p s st0 o1 t1 b1 (sl : list wtok) o2 lb ts : rule_ctx s ->
+  wf_state p (s :: st0) (src_toks ((o1, (t1, b1)) :: sl) ++ optws o2 ++ (TLeftBrace, lb) :: ts) ->
   sel_first t1 = true -> toks_ok 0 ((o1, (t1, b1)) :: sl) -> lv_after 0 ((o1, (t1, b1)) :: sl) = 0 ->
   exists p', parse_next p = POk (GBeginRuleset, p') /\ ptt p' = TWhitespace /\ pdata p' = [] /\
     pbuf p' = expected_sel ((o1, (t1, b1)) :: sl) /\ perr p' = false /\
-    wf_state p' (SQualifiedRuleDeclarationList :: SStylesheet :: st0) ts.
+    wf_state p' (SQualifiedRuleDeclarationList :: s :: st0) ts.
 Proof.
-  intros (Hi & Hl & Hst & Hlv & Hpe & Hkw & Hsty) Hfirst Hok Hlv0.
+  intros Hctx (Hi & Hl & Hst & Hlv & Hpe & Hkw & Hsty) Hfirst Hok Hlv0.
   rewrite src_toks_cons in Hl. cbn [toks_ok fst snd] in Hok. destruct Hok as (Hv1 & Hok). cbn [lv_after fst snd] in Hlv0.
   unfold sel_first in Hfirst. repeat (apply andb_true_iff in Hfirst; destruct Hfirst as [Hfirst ?]).
   repeat match goal with X : negb _ = true |- _ => apply negb_true_iff in X end.
@@ -533,8 +570,7 @@ Proof.
   unfold parse_next. cbv zeta. change (prevend (set_err p false)) with (prevend p). rewrite Hpe.
   destruct (pop_token_ows (next_fuel p) true (set_err p false) o1 t1 b1 _ Hi Hkw Hl Hp1 HF) as (z1 & Hpop & Hl1 & Hi1).
   rewrite Hpop. cbn [pbind fst snd]. cbn [set_tok relex set_err pst]. rewrite Hst.
-  unfold parse_stylesheet. cbn [set_tok ptt].
-  repeat match goal with X : is_t t1 _ = false |- _ => rewrite X end. cbn [orb].
+  rewrite (rule_dispatch s st0 _ _ Hctx) by (cbn [set_tok ptt]; assumption).
   unfold parse_qualified_rule.
   assert (Hq : forall q, qualified_loop (next_fuel p) (next_fuel p) q true false true =
                          qualified_loop (S (length sl + S f')) (next_fuel p) q true false true)
@@ -546,7 +582,7 @@ Proof.
   destruct (after_first_f q0) as (A1 & A2 & A3 & A4 & A5 & A6 & A7 & A8 & A9 & A10).
   set (q1 := after_first q0) in *.
   assert (Hq0 : pl q0 = z1 /\ pbuf q0 = [] /\ plevel q0 = 0 /\ ptt q0 = t1 /\ pdata q0 = b1 /\ keepws q0 = false /\
-                pst q0 = SStylesheet :: st0 /\ perr q0 = false /\ prevend q0 = false /\ isstyle q0 = true).
+                pst q0 = s :: st0 /\ perr q0 = false /\ prevend q0 = false /\ isstyle q0 = true).
   { subst q0. cbn [set_buf set_tok relex set_err pl pbuf plevel ptt pdata keepws pst perr prevend isstyle]. repeat split; assumption. }
   destruct Hq0 as (B1 & B2 & B3 & B4 & B5 & B6 & B7 & B8 & B9 & B10).
   destruct (qual_tokens (next_fuel p) (optws o2 ++ (TLeftBrace, lb) :: ts) HF sl (S f') q1
@@ -948,6 +984,217 @@ Proof.
   split; [rewrite S1; exact Hkw|rewrite S7; exact Hsty].
 Qed.
 
+(* --- at-rules -------------------------------------------------------------------------------------------------------- *)
+(* the name handling of parseAtRule: lower-cased name, vendor prefix dropped, hashed (ToHash) *)
+Definition at_rule_h (name0 : list Z) : pres Z :=
+  name <-- (if 0 <? len name0 then
+              c1 <-- of_opt (peekz name0 1) ;;
+              if c1 =? 45 then
+                match index_byte (skipz 2 name0) 45 with
+                | Some i => POk (skipz (i + 2) name0)
+                | None => POk name0
+                end
+              else POk name0
+            else POk name0) ;;
+  if len name <? 1 then PPanic else of_opt (to_hash (skipz 1 name)).
+
+Lemma parse_at_rule_eq F p : parse_at_rule F p =
+  (h <-- at_rule_h (to_lower (pdata p)) ;;
+   at_rule_loop F F (set_tok (set_buf p []) (ptt p) (to_lower (pdata p))) h true false).
+Proof.
+  unfold parse_at_rule, at_rule_h. cbn [set_buf set_tok pdata ptt].
+  match goal with |- pbind ?X _ = _ => destruct X as [nm| |] end; cbn [pbind]; try reflexivity.
+  destruct (len nm <? 1); [reflexivity|]. destruct (to_hash (skipz 1 nm)); reflexivity.
+Qed.
+
+Definition at_special (b : list Z) : bool := one_of [44; 58] b.             (* , : *)
+(* the whitespace before a prelude token is kept unless the token is , : or ')' , follows one of , : ( , or is a '(' / '['
+   directly after the at-keyword *)
+Definition at_w (w first : bool) (t : ttype) : bool := w && negb (first && (is_t t TLeftParenthesis || is_t t TLeftBracket)).
+Definition addws_at (w first sk : bool) (t : ttype) (b : list Z) : bool :=
+  negb (at_special b) && at_w w first t && negb sk && negb (is_t t TRightParenthesis).
+Definition sk_at (t : ttype) (b : list Z) : bool := if is_t t TLeftParenthesis then true else at_special b.
+Definition after_at (p : parser) (z' : lx) (w : bool) (t : ttype) (b : list Z) (first sk : bool) : parser :=
+  push_buf (let q := adjust_level (relex p z' w false) t in
+            let q := if first && (is_t t TLeftParenthesis || is_t t TLeftBracket) then set_prevws q false else q in
+            if addws_at w first sk t b then push_buf q TWhitespace [32] else q) t b.
+
+Fixpoint at_buf (first sk : bool) (l : list wtok) : list tok :=
+  match l with
+  | [] => []
+  | x :: r => (if addws_at (isws (fst x)) first sk (fst (snd x)) (snd (snd x)) then [sp] else []) ++ snd x ::
+              at_buf false (sk_at (fst (snd x)) (snd (snd x))) r
+  end.
+
+Lemma after_at_f p z' w t b first sk : pl (after_at p z' w t b first sk) = z' /\
+  pbuf (after_at p z' w t b first sk) = pbuf p ++ (if addws_at w first sk t b then [sp] else []) ++ [(t, b)] /\
+  plevel (after_at p z' w t b first sk) = tok_lv (plevel p) t /\ rest_same p (after_at p z' w t b first sk).
+Proof.
+  unfold after_at, adjust_level, tok_lv, rest_same, sp.
+  destruct (addws_at w first sk t b), (first && (is_t t TLeftParenthesis || is_t t TLeftBracket)), (opens t), (closes t);
+    cbn; rewrite <- ?app_assoc; repeat split.
+Qed.
+
+Lemma at_rule_loop_S f F p h first sk : at_rule_loop (S f) F p h first sk =
+  (r <-- pop_token F false p ;;
+   let t := fst (fst r) in let d := snd (fst r) in let p := snd r in
+   if is_t t TLeftBrace && (plevel p =? 0) then POk (GBeginAtRule, push_st p (at_state h))
+   else if ends_unit p t then POk (GAtRule, set_prevend p (is_t t TRightBrace))
+   else if closes t && (plevel p =? 0) then POk (GError, set_err (pop_st_if_gt1 (push_buf p t d)) true)
+   else
+     let p := adjust_level p t in
+     let p := if first && (is_t t TLeftParenthesis || is_t t TLeftBracket) then set_prevws p false else p in
+     let special := one_of [44; 58] d in
+     let addws := negb special && prevws p && negb sk && negb (is_t t TRightParenthesis) in
+     let skipws := if special then true else if addws then sk else false in
+     let p := if addws then push_buf p TWhitespace [32] else p in
+     let skipws := if is_t t TLeftParenthesis then true else skipws in
+     at_rule_loop f F (push_buf p t d) h false skipws).
+Proof. reflexivity. Qed.
+
+Lemma at_iter f F p h o t b ts first sk : css_inv (pl p) -> keepws p = false -> (1 <= F)%nat ->
+  lexes (pl p) (optws o ++ (t, b) :: ts) -> vtok_ok (plevel p) t = true ->
+  exists z', css_inv z' /\ lexes z' ts /\
+    at_rule_loop (S f) F p h first sk = at_rule_loop f F (after_at p z' (isws o) t b first sk) h false (sk_at t b).
+Proof.
+  intros Hi Hkw HF Hl Hv.
+  destruct (vtok_ok_inv _ _ Hv) as (Hp & Herr & Hlb & Hrb & Hsemi & Hcl & _).
+  destruct (pop_token_ows F false p o t b ts Hi Hkw Hl Hp HF) as (z' & Hpop & Hl' & Hi').
+  exists z'. split; [exact Hi'|]. split; [exact Hl'|].
+  rewrite at_rule_loop_S, Hpop. cbn [pbind fst snd]. rewrite Hlb. cbn [andb]. unfold ends_unit. rewrite Hsemi, Hrb, Herr. cbn [orb andb].
+  assert (Hc0 : closes t && (plevel (relex p z' (isws o) false) =? 0) = false).
+  { cbn [relex plevel]. destruct (closes t); [|reflexivity]. specialize (Hcl eq_refl). cbn [andb]. lia. }
+  rewrite Hc0. cbv zeta. unfold after_at, addws_at, at_w, sk_at, at_special.
+  destruct (adjust_level_f (relex p z' (isws o) false) t) as (_ & F2 & _).
+  destruct first, (is_t t TLeftParenthesis), (is_t t TLeftBracket); cbn [andb orb negb set_prevws prevws]; rewrite ?F2; cbn [relex prevws];
+    destruct (one_of [44; 58] b), (isws o), sk, (is_t t TRightParenthesis); reflexivity.
+Qed.
+
+Lemma at_tokens F h ts : (1 <= F)%nat -> forall sl f p first sk, css_inv (pl p) -> keepws p = false ->
+  lexes (pl p) (src_toks sl ++ ts) -> toks_ok (plevel p) sl ->
+  exists p' first' sk', at_rule_loop (length sl + f) F p h first sk = at_rule_loop f F p' h first' sk' /\
+    css_inv (pl p') /\ lexes (pl p') ts /\ pbuf p' = pbuf p ++ at_buf first sk sl /\
+    plevel p' = lv_after (plevel p) sl /\ rest_same p p'.
+Proof.
+  intros HF. induction sl as [|[o [t b]] sl IH]; intros f p first sk Hi Hkw Hl Hok.
+  - exists p, first, sk. cbn [length Nat.add src_toks at_buf flat_map app lv_after] in *. rewrite app_nil_r.
+    split; [reflexivity|]. split; [exact Hi|]. split; [exact Hl|]. split; [reflexivity|]. split; [reflexivity|].
+    unfold rest_same. repeat split.
+  - rewrite src_toks_cons in Hl. cbn [toks_ok fst snd] in Hok. destruct Hok as (Hv & Hok).
+    destruct (at_iter (length sl + f) F p h o t b _ first sk Hi Hkw HF Hl Hv) as (z' & Hi' & Hl' & Heq).
+    destruct (after_at_f p z' (isws o) t b first sk) as (G1 & G2 & G3 & G4).
+    set (p1 := after_at p z' (isws o) t b first sk) in *.
+    destruct (IH f p1 false (sk_at t b)) as (p' & first' & sk' & Hrun & Hi2 & Hl2 & Hb2 & Hlv2 & Hs2).
+    + rewrite G1. exact Hi'.
+    + destruct G4 as (G4 & _). rewrite G4. exact Hkw.
+    + rewrite G1. exact Hl'.
+    + rewrite G3. exact Hok.
+    + exists p', first', sk'. cbn [length Nat.add]. rewrite Heq, Hrun. split; [reflexivity|]. split; [exact Hi2|]. split; [exact Hl2|].
+      split; [rewrite Hb2, G2; cbn [at_buf fst snd]; rewrite <- !app_assoc; reflexivity|]. split; [rewrite Hlv2, G3; reflexivity|].
+      eapply rest_same_trans; eassumption.
+Qed.
+
+Lemma at_semi f F p h o s ts first sk : css_inv (pl p) -> keepws p = false -> (1 <= F)%nat -> plevel p = 0 ->
+  lexes (pl p) (optws o ++ (TSemicolon, s) :: ts) ->
+  exists z', css_inv z' /\ lexes z' ts /\
+    at_rule_loop (S f) F p h first sk = POk (GAtRule, set_prevend (relex p z' (isws o) false) false).
+Proof.
+  intros Hi Hkw HF Hlv Hl.
+  destruct (pop_token_ows F false p o TSemicolon s ts Hi Hkw Hl eq_refl HF) as (z' & Hpop & Hl' & Hi').
+  exists z'. split; [exact Hi'|]. split; [exact Hl'|].
+  rewrite at_rule_loop_S, Hpop. cbn [pbind fst snd]. unfold ends_unit. cbn [relex plevel]. rewrite Hlv. evis. reflexivity.
+Qed.
+
+Lemma at_brace f F p h o lb ts first sk : css_inv (pl p) -> keepws p = false -> (1 <= F)%nat -> plevel p = 0 ->
+  lexes (pl p) (optws o ++ (TLeftBrace, lb) :: ts) ->
+  exists z', css_inv z' /\ lexes z' ts /\
+    at_rule_loop (S f) F p h first sk = POk (GBeginAtRule, push_st (relex p z' (isws o) false) (at_state h)).
+Proof.
+  intros Hi Hkw HF Hlv Hl.
+  destruct (pop_token_ows F false p o TLeftBrace lb ts Hi Hkw Hl eq_refl HF) as (z' & Hpop & Hl' & Hi').
+  exists z'. split; [exact Hi'|]. split; [exact Hl'|].
+  rewrite at_rule_loop_S, Hpop. cbn [pbind fst snd relex plevel]. rewrite Hlv. evis. reflexivity.
+Qed.
+
+(* Next on an at-keyword in a rule context: everything up to the loop of parseAtRule *)
+Lemma at_head p s st0 o1 name ts h : rule_ctx s -> wf_state p (s :: st0) (optws o1 ++ (TAtKeyword, name) :: ts) ->
+  at_rule_h (to_lower name) = POk h ->
+  exists p0, parse_next p = at_rule_loop (next_fuel p) (next_fuel p) p0 h true false /\ css_inv (pl p0) /\ lexes (pl p0) ts /\
+    pbuf p0 = [] /\ ptt p0 = TAtKeyword /\ pdata p0 = to_lower name /\ pst p0 = s :: st0 /\
+    plevel p0 = 0 /\ prevend p0 = false /\ keepws p0 = false /\ isstyle p0 = true /\ perr p0 = false.
+Proof.
+  intros Hctx (Hi & Hl & Hst & Hlv & Hpe & Hkw & Hsty) Hh.
+  unfold parse_next. cbv zeta. change (prevend (set_err p false)) with (prevend p). rewrite Hpe.
+  destruct (pop_token_ows (next_fuel p) true (set_err p false) o1 TAtKeyword name ts Hi Hkw Hl eq_refl (next_fuel_pos p Hi))
+    as (z1 & Hpop & Hl1 & Hi1).
+  rewrite Hpop. cbn [pbind fst snd]. cbn [set_tok relex set_err pst]. rewrite Hst.
+  rewrite (at_dispatch s st0 _ _ Hctx) by reflexivity.
+  rewrite parse_at_rule_eq. cbn [set_tok pdata ptt]. rewrite Hh. cbn [pbind].
+  eexists. split; [reflexivity|].
+  cbn [set_buf set_tok relex set_err pl pbuf ptt pdata pst plevel prevend keepws isstyle perr].
+  split; [exact Hi1|]. split; [exact Hl1|]. repeat split; assumption.
+Qed.
+
+(* an at-rule: at-keyword, prelude tokens, then ';' (AtRule) or '{' (BeginAtRule) *)
+Lemma step_at p s st0 o1 name (pre : list wtok) o2 (tb : tok) ts h : rule_ctx s ->
+  wf_state p (s :: st0) (optws o1 ++ (TAtKeyword, name) :: src_toks pre ++ optws o2 ++ tb :: ts) ->
+  at_rule_h (to_lower name) = POk h -> toks_ok 0 pre -> lv_after 0 pre = 0 ->
+  (fst tb = TSemicolon \/ fst tb = TLeftBrace) ->
+  exists p', parse_next p = POk (if is_t (fst tb) TSemicolon then GAtRule else GBeginAtRule, p') /\
+    ptt p' = TAtKeyword /\ pdata p' = to_lower name /\ pbuf p' = at_buf true false pre /\ perr p' = false /\
+    wf_state p' (if is_t (fst tb) TSemicolon then s :: st0 else at_state h :: s :: st0) ts.
+Proof.
+  intros Hctx Hw Hh Hok Hlv0 Htb. pose proof Hw as (Hi & Hl & _).
+  destruct (at_head p s st0 o1 name _ h Hctx Hw Hh) as (p0 & Hpn & Hi0 & Hl0 & Hb0 & Ht0 & Hd0 & Hst0 & Hlv & Hpe0 & Hkw0 & Hsty0 & Herr0).
+  assert (HN : exists f', next_fuel p = S (length pre + S f')).
+  { pose proof (lexes_len _ _ Hi Hl) as Hlen. eapply fuel_split; [exact Hlen|].
+    rewrite app_length. cbn [length]. rewrite app_length. rewrite app_length. cbn [length]. pose proof (src_toks_len pre) as Hsl.
+    clear - Hsl. unfold wtok, tok in *. lia. }
+  destruct HN as (f' & HN). assert (HF : (1 <= next_fuel p)%nat) by (apply next_fuel_pos; exact Hi).
+  assert (Hq : forall q, at_rule_loop (next_fuel p) (next_fuel p) q h true false =
+                         at_rule_loop (length pre + S (S f')) (next_fuel p) q h true false).
+  { intros q. rewrite HN at 1. f_equal. clear. lia. }
+  rewrite Hpn, Hq. clear Hq.
+  destruct (at_tokens (next_fuel p) h (optws o2 ++ tb :: ts) HF pre (S (S f')) p0 true false) as (p2 & first' & sk' & Hrun & Hi2 & Hl2 & Hb2 & Hlv2 & Hs2).
+  { exact Hi0. } { exact Hkw0. } { exact Hl0. } { rewrite Hlv. exact Hok. }
+  rewrite Hrun. destruct Hs2 as (S1 & S2 & S3 & S4 & S5 & S6 & S7).
+  assert (Hk2 : keepws p2 = false) by (rewrite S1; exact Hkw0).
+  assert (Hl20 : plevel p2 = 0) by (rewrite Hlv2, Hlv; exact Hlv0).
+  destruct tb as [tt bb]. cbn [fst] in *. destruct Htb as [-> | ->]; evis.
+  - destruct (at_semi (S f') (next_fuel p) p2 h o2 bb ts first' sk' Hi2 Hk2 HF Hl20 Hl2) as (z3 & Hi3 & Hl3 & Heq3).
+    rewrite Heq3. eexists. split; [reflexivity|]. cbn [set_prevend relex ptt pdata pbuf perr].
+    split; [rewrite S3; exact Ht0|]. split; [rewrite S4; exact Hd0|]. split; [rewrite Hb2, Hb0; reflexivity|].
+    split; [rewrite S5; exact Herr0|].
+    unfold wf_state. cbn [set_prevend relex pl pst plevel prevend keepws isstyle].
+    split; [exact Hi3|]. split; [exact Hl3|]. split; [rewrite S2; exact Hst0|]. split; [exact Hl20|]. split; [reflexivity|].
+    split; [exact Hk2|rewrite S7; exact Hsty0].
+  - destruct (at_brace (S f') (next_fuel p) p2 h o2 bb ts first' sk' Hi2 Hk2 HF Hl20 Hl2) as (z3 & Hi3 & Hl3 & Heq3).
+    rewrite Heq3. eexists. split; [reflexivity|]. cbn [push_st set_st relex ptt pdata pbuf perr].
+    split; [rewrite S3; exact Ht0|]. split; [rewrite S4; exact Hd0|]. split; [rewrite Hb2, Hb0; reflexivity|].
+    split; [rewrite S5; exact Herr0|].
+    unfold wf_state. cbn [push_st set_st relex pl pst plevel prevend keepws isstyle].
+    split; [exact Hi3|]. split; [exact Hl3|]. split; [rewrite S2, Hst0; reflexivity|]. split; [exact Hl20|]. split; [rewrite S6; exact Hpe0|].
+    split; [exact Hk2|rewrite S7; exact Hsty0].
+Qed.
+
+(* the '}' of the block of @media, @supports, ... *)
+Lemma step_endat p st0 o rb ts : wf_state p (SAtRuleRuleList :: st0) (optws o ++ (TRightBrace, rb) :: ts) ->
+  exists p', parse_next p = POk (GEndAtRule, p') /\ ptt p' = TRightBrace /\ pdata p' = rb /\ perr p' = false /\
+    wf_state p' st0 ts.
+Proof.
+  intros (Hi & Hl & Hst & Hlv & Hpe & Hkw & Hsty).
+  unfold parse_next. cbv zeta. change (prevend (set_err p false)) with (prevend p). rewrite Hpe.
+  destruct (pop_token_ows (next_fuel p) true (set_err p false) o TRightBrace rb ts Hi Hkw Hl eq_refl (next_fuel_pos p Hi))
+    as (z' & Hpop & Hl' & Hi').
+  rewrite Hpop. cbn [pbind fst snd].
+  cbn [set_tok relex set_err pst]. rewrite Hst.
+  unfold parse_at_rule_rule_list. cbn [set_tok ptt]. evis. cbn [orb]. unfold pop_st. cbn [set_tok relex set_err pst]. rewrite Hst. cbn [pbind].
+  eexists. split; [reflexivity|]. cbn [set_st set_tok relex set_err ptt pdata perr].
+  split; [reflexivity|]. split; [reflexivity|]. split; [reflexivity|].
+  unfold wf_state. cbn [set_st set_tok relex set_err pl pst plevel prevend keepws isstyle].
+  split; [exact Hi'|]. split; [exact Hl'|]. auto.
+Qed.
+
 (* --- the grammar and the units it denotes ------------------------------------------------------------------------ *)
 (* w1 property w2 ':' value-tokens (each with the whitespace before it) w4 ';' *)
 Record decl_t := mkDecl { d_w1 : ws_t; d_prop : list Z; d_w2 : ws_t; d_vals : list wtok; d_w4 : ws_t }.
@@ -957,7 +1204,10 @@ Record decl_t := mkDecl { d_w1 : ws_t; d_prop : list Z; d_w2 : ws_t; d_vals : li
 Inductive ev := EDecl (d : decl_t) | EOpen (sel : list wtok) (w2 : ws_t) | EClose (w3 : ws_t)
   | EComment (w : ws_t) (b : list Z)                 (* a comment at the top level *)
   | EToken (w : ws_t) (t : ttype) (b : list Z)       (* CDO or CDC at the top level *)
-  | ECustom (w1 : ws_t) (name : list Z) (w2 : ws_t) (raw : list tok).   (* --name ':' raw tokens ';' inside a ruleset *)
+  | ECustom (w1 : ws_t) (name : list Z) (w2 : ws_t) (raw : list tok)    (* --name ':' raw tokens ';' inside a ruleset *)
+  | EAtRule (w1 : ws_t) (name : list Z) (pre : list wtok) (w2 : ws_t) (h : Z)        (* @name prelude ';' *)
+  | EBeginAtRule (w1 : ws_t) (name : list Z) (pre : list wtok) (w2 : ws_t) (h : Z)   (* @name prelude '{' *)
+  | EEndAtRule (w3 : ws_t).                                                           (* the '}' of an at-rule block *)
 
 Definition decl_toks (d : decl_t) : list tok :=
   optws (d_w1 d) ++ (TIdent, d_prop d) :: optws (d_w2 d) ++ (TColon, [58]) :: src_toks (d_vals d) ++
@@ -970,29 +1220,43 @@ Definition ev_toks (e : ev) : list tok :=
   | EComment w b => optws w ++ [(TComment, b)]
   | EToken w t b => optws w ++ [(t, b)]
   | ECustom w1 name w2 raw => optws w1 ++ (TCustomPropertyName, name) :: optws w2 ++ (TColon, [58]) :: raw ++ [(TSemicolon, [59])]
+  | EAtRule w1 name pre w2 _ => optws w1 ++ (TAtKeyword, name) :: src_toks pre ++ optws w2 ++ [(TSemicolon, [59])]
+  | EBeginAtRule w1 name pre w2 _ => optws w1 ++ (TAtKeyword, name) :: src_toks pre ++ optws w2 ++ [(TLeftBrace, [123])]
+  | EEndAtRule w3 => optws w3 ++ [(TRightBrace, [125])]
   end.
 
 Definition decl_ok (d : decl_t) : Prop := d_vals d <> [] /\ toks_ok 0 (d_vals d) /\ lv_after 0 (d_vals d) = 0.
 (* a selector at the top level / of a nested ruleset *)
 Definition sel_ok (first : tok -> bool) (l : list wtok) : Prop :=
   match l with x :: _ => first (snd x) = true | [] => False end /\ toks_ok 0 l /\ lv_after 0 l = 0.
-(* declarations only inside a ruleset, every '}' closes an open ruleset, all closed at the end *)
-Fixpoint evs_ok (depth : nat) (l : list ev) : Prop :=
+(* the open blocks, innermost first: a ruleset, or the rule block of @media, @supports, @layer, @keyframes, @document *)
+Inductive frame := FRule | FAtRules.
+Definition rule_top (fs : list frame) : Prop := match fs with FRule :: _ => False | _ => True end.
+(* declarations and custom properties only inside a ruleset; rulesets and at-rules at the top level and inside an at-rule
+   block (nested rulesets also inside a ruleset); every '}' closes the innermost open block; all closed at the end; h is
+   the hash parseAtRule computes for the name and decides the kind of block *)
+Fixpoint evs_ok (fs : list frame) (l : list ev) : Prop :=
   match l with
-  | [] => depth = O
-  | EDecl d :: r => (0 < depth)%nat /\ decl_ok d /\ evs_ok depth r
-  | EOpen sel _ :: r => sel_ok (match depth with O => fun x => sel_first (fst x) | S _ => nest_first end) sel /\ evs_ok (S depth) r
-  | EClose _ :: r => (0 < depth)%nat /\ evs_ok (pred depth) r
-  | EComment _ _ :: r => depth = O /\ evs_ok depth r
-  | EToken _ t _ :: r => depth = O /\ is_cd t = true /\ evs_ok depth r
-  | ECustom _ _ _ raw :: r => (0 < depth)%nat /\ raw_ok 0 raw /\ raw_lv 0 raw = 0 /\ evs_ok depth r
+  | [] => fs = []
+  | EDecl d :: r => match fs with FRule :: _ => decl_ok d /\ evs_ok fs r | _ => False end
+  | EOpen sel _ :: r => sel_ok (match fs with FRule :: _ => nest_first | _ => fun x => sel_first (fst x) end) sel /\ evs_ok (FRule :: fs) r
+  | EClose _ :: r => match fs with FRule :: fs' => evs_ok fs' r | _ => False end
+  | EComment _ _ :: r => fs = [] /\ evs_ok fs r
+  | EToken _ t _ :: r => fs = [] /\ is_cd t = true /\ evs_ok fs r
+  | ECustom _ _ _ raw :: r => match fs with FRule :: _ => raw_ok 0 raw /\ raw_lv 0 raw = 0 /\ evs_ok fs r | _ => False end
+  | EAtRule _ name pre _ h :: r =>
+      rule_top fs /\ at_rule_h (to_lower name) = POk h /\ toks_ok 0 pre /\ lv_after 0 pre = 0 /\ evs_ok fs r
+  | EBeginAtRule _ name pre _ h :: r =>
+      rule_top fs /\ at_rule_h (to_lower name) = POk h /\ at_state h = SAtRuleRuleList /\ toks_ok 0 pre /\ lv_after 0 pre = 0 /\
+      evs_ok (FAtRules :: fs) r
+  | EEndAtRule _ :: r => match fs with FAtRules :: fs' => evs_ok fs' r | _ => False end
   end.
 
 (* what the caller sees of one call: grammar type, token type, data, and Values() for the units that set them *)
 Definition unit_t := (gtype * ttype * list Z * list tok)%type.
 Definition view (r : gtype * parser) : unit_t :=
   match fst r with
-  | GBeginRuleset | GDeclaration | GCustomProperty => (fst r, ptt (snd r), pdata (snd r), pbuf (snd r))
+  | GBeginRuleset | GDeclaration | GCustomProperty | GAtRule | GBeginAtRule => (fst r, ptt (snd r), pdata (snd r), pbuf (snd r))
   | GError => (GError, ptt (snd r), [], [])
   | g => (g, ptt (snd r), pdata (snd r), [])
   end.
@@ -1005,6 +1269,9 @@ Definition ev_unit (e : ev) : unit_t :=
   | EComment _ b => (GComment, TComment, b, [])
   | EToken _ t b => (GToken, t, b, [])
   | ECustom _ name _ raw => (GCustomProperty, TCustomPropertyName, name, [(TCustomPropertyValue, concat (map snd raw))])
+  | EAtRule _ name pre _ _ => (GAtRule, TAtKeyword, to_lower name, at_buf true false pre)
+  | EBeginAtRule _ name pre _ _ => (GBeginAtRule, TAtKeyword, to_lower name, at_buf true false pre)
+  | EEndAtRule _ => (GEndAtRule, TRightBrace, [125], [])
   end.
 
 Definition last_state (p : parser) (tr : list (gtype * parser)) : parser :=
@@ -1017,56 +1284,85 @@ Qed.
 
 Definition no_err (tr : list (gtype * parser)) : Prop := Forall (fun r => perr (snd r) = false) tr.
 
-Definition stack (depth : nat) : list pstate := repeat SQualifiedRuleDeclarationList depth ++ [SStylesheet].
+Definition frame_state (f : frame) : pstate := match f with FRule => SQualifiedRuleDeclarationList | FAtRules => SAtRuleRuleList end.
+Definition stack (fs : list frame) : list pstate := map frame_state fs ++ [SStylesheet].
 
-Lemma evs_run : forall evs depth p rest,
-  wf_state p (stack depth) (concat (map ev_toks evs) ++ rest) -> evs_ok depth evs ->
+Lemma rule_top_ctx fs : rule_top fs -> exists s st0, stack fs = s :: st0 /\ rule_ctx s.
+Proof.
+  destruct fs as [|[|] fs]; cbn [rule_top]; intros H; [|contradiction|].
+  - exists SStylesheet, []. split; [reflexivity|left; reflexivity].
+  - exists SAtRuleRuleList, (stack fs). split; [reflexivity|right; reflexivity].
+Qed.
+
+Lemma evs_run : forall evs fs p rest,
+  wf_state p (stack fs) (concat (map ev_toks evs) ++ rest) -> evs_ok fs evs ->
   exists tr, parse_run (length evs) p = POk tr /\ map view tr = map ev_unit evs /\ no_err tr /\
     wf_state (last_state p tr) [SStylesheet] rest.
 Proof.
-  induction evs as [|e evs IH]; intros depth p rest Hw Hok.
-  - cbn [evs_ok] in Hok. subst depth. exists []. cbn [map concat length parse_run app] in *.
+  induction evs as [|e evs IH]; intros fs p rest Hw Hok.
+  - cbn [evs_ok] in Hok. subst fs. exists []. cbn [map concat length parse_run app] in *.
     split; [reflexivity|]. split; [reflexivity|]. split; [constructor|exact Hw].
-  - assert (Hcons : forall g p1 (u : unit_t) depth', parse_next p = POk (g, p1) -> view (g, p1) = u -> perr p1 = false ->
-                    wf_state p1 (stack depth') (concat (map ev_toks evs) ++ rest) -> evs_ok depth' evs -> u = ev_unit e ->
+  - assert (Hcons : forall g p1 (u : unit_t) fs', parse_next p = POk (g, p1) -> view (g, p1) = u -> perr p1 = false ->
+                    wf_state p1 (stack fs') (concat (map ev_toks evs) ++ rest) -> evs_ok fs' evs -> u = ev_unit e ->
                     exists tr, parse_run (length (e :: evs)) p = POk tr /\ map view tr = map ev_unit (e :: evs) /\ no_err tr /\
                       wf_state (last_state p tr) [SStylesheet] rest).
-    { intros g p1 u depth' Hn Hv He Hw1 Hok1 Hu.
-      destruct (IH depth' p1 rest Hw1 Hok1) as (tr & Hrun & Hview & Hne & Hlast).
+    { intros g p1 u fs' Hn Hv He Hw1 Hok1 Hu.
+      destruct (IH fs' p1 rest Hw1 Hok1) as (tr & Hrun & Hview & Hne & Hlast).
       exists ((g, p1) :: tr). split; [|split; [|split]].
       - cbn [length parse_run]. rewrite Hn. cbn [pbind snd]. rewrite Hrun. reflexivity.
       - cbn [map]. rewrite Hview, Hv, Hu. reflexivity.
       - constructor; [exact He|exact Hne].
       - rewrite last_state_cons. exact Hlast. }
-    destruct e as [[w1 prop w2 vl w4]|sel w2|w3|wc cb|wt tt tb|cw1 cname cw2 craw]; cbn [evs_ok] in Hok; cbn [map concat ev_toks] in Hw.
-    + destruct Hok as (Hd & (Hv & Hp & Hq) & Hok). cbn [d_vals] in *.
-      destruct depth as [|depth]; [lia|]. unfold stack in Hw. cbn [repeat app] in Hw.
+    destruct e as [[w1 prop w2 vl w4]|sel w2|w3|wc cb|wt tt tb|cw1 cname cw2 craw|aw1 aname apre aw2 ah|bw1 bname bpre bw2 bh|ew3];
+      cbn [evs_ok] in Hok; cbn [map concat ev_toks] in Hw.
+    + destruct fs as [|[|] fs]; try contradiction. destruct Hok as ((Hv & Hp & Hq) & Hok). cbn [d_vals] in *.
+      unfold stack in Hw. cbn [map frame_state app] in Hw.
       unfold decl_toks in Hw. cbn [d_w1 d_prop d_w2 d_vals d_w4] in Hw. repeat (rewrite <- app_assoc in Hw; cbn [app] in Hw).
       destruct (step_decl p _ w1 prop w2 [58] vl w4 [59] _ Hw Hv Hp Hq) as (p1 & Hn & Ht & Hdd & Hb & He & Hw1).
-      eapply (Hcons _ p1 _ (S depth) Hn eq_refl He Hw1 Hok). unfold view. cbn [fst snd ev_unit d_prop d_vals]. rewrite Ht, Hdd, Hb. reflexivity.
+      eapply (Hcons _ p1 _ (FRule :: fs) Hn eq_refl He Hw1 Hok). unfold view. cbn [fst snd ev_unit d_prop d_vals]. rewrite Ht, Hdd, Hb. reflexivity.
     + destruct Hok as ((Hs1 & Hs2 & Hs3) & Hok). destruct sel as [|[o1 [t1 b1]] sl]; [contradiction|]. cbn [fst snd] in Hs1.
       repeat (rewrite <- app_assoc in Hw; cbn [app] in Hw).
-      destruct depth as [|depth]; unfold stack in Hw; cbn [repeat app] in Hw.
-      * destruct (step_begin p [] o1 t1 b1 sl w2 [123] _ Hw Hs1 Hs2 Hs3) as (p1 & Hn & Ht & Hdd & Hb & He & Hw1).
-        eapply (Hcons _ p1 _ 1%nat Hn eq_refl He Hw1 Hok). unfold view. cbn [fst snd ev_unit]. rewrite Ht, Hdd, Hb. reflexivity.
-      * destruct (step_nested p _ o1 t1 b1 sl w2 [123] _ Hw Hs1 Hs2 Hs3) as (p1 & Hn & Ht & Hdd & Hb & He & Hw1).
-        eapply (Hcons _ p1 _ (S (S depth)) Hn eq_refl He Hw1 Hok). unfold view. cbn [fst snd ev_unit]. rewrite Ht, Hdd, Hb. reflexivity.
-    + destruct Hok as (Hd & Hok). destruct depth as [|depth]; [lia|]. unfold stack in Hw. cbn [repeat app pred] in *.
+      destruct fs as [|[|] fs].
+      * unfold stack in Hw. cbn [map frame_state app] in Hw.
+        destruct (step_begin p SStylesheet [] o1 t1 b1 sl w2 [123] _ (or_introl eq_refl) Hw Hs1 Hs2 Hs3) as (p1 & Hn & Ht & Hdd & Hb & He & Hw1).
+        eapply (Hcons _ p1 _ [FRule] Hn eq_refl He Hw1 Hok). unfold view. cbn [fst snd ev_unit]. rewrite Ht, Hdd, Hb. reflexivity.
+      * unfold stack in Hw. cbn [map frame_state app] in Hw.
+        destruct (step_nested p _ o1 t1 b1 sl w2 [123] _ Hw Hs1 Hs2 Hs3) as (p1 & Hn & Ht & Hdd & Hb & He & Hw1).
+        eapply (Hcons _ p1 _ (FRule :: FRule :: fs) Hn eq_refl He Hw1 Hok). unfold view. cbn [fst snd ev_unit]. rewrite Ht, Hdd, Hb. reflexivity.
+      * unfold stack in Hw. cbn [map frame_state app] in Hw.
+        destruct (step_begin p SAtRuleRuleList _ o1 t1 b1 sl w2 [123] _ (or_intror eq_refl) Hw Hs1 Hs2 Hs3) as (p1 & Hn & Ht & Hdd & Hb & He & Hw1).
+        eapply (Hcons _ p1 _ (FRule :: FAtRules :: fs) Hn eq_refl He Hw1 Hok). unfold view. cbn [fst snd ev_unit]. rewrite Ht, Hdd, Hb. reflexivity.
+    + destruct fs as [|[|] fs]; try contradiction. unfold stack in Hw. cbn [map frame_state app] in Hw.
       repeat (rewrite <- app_assoc in Hw; cbn [app] in Hw).
       destruct (step_end p _ w3 [125] _ Hw) as (p1 & Hn & Ht & Hdd & He & Hw1).
-      eapply (Hcons _ p1 _ depth Hn eq_refl He Hw1 Hok). unfold view. cbn [fst snd ev_unit]. rewrite Ht, Hdd. reflexivity.
-    + destruct Hok as (Hd & Hok). subst depth. unfold stack in Hw. cbn [repeat app] in Hw.
+      eapply (Hcons _ p1 _ fs Hn eq_refl He Hw1 Hok). unfold view. cbn [fst snd ev_unit]. rewrite Ht, Hdd. reflexivity.
+    + destruct Hok as (Hd & Hok). subst fs. unfold stack in Hw. cbn [map app] in Hw.
       repeat (rewrite <- app_assoc in Hw; cbn [app] in Hw).
       destruct (step_comment p wc cb _ Hw) as (p1 & Hn & Ht & Hdd & He & Hw1).
-      eapply (Hcons _ p1 _ O Hn eq_refl He Hw1 Hok). unfold view. cbn [fst snd ev_unit]. rewrite Ht, Hdd. reflexivity.
-    + destruct Hok as (Hd & Hcd & Hok). subst depth. unfold stack in Hw. cbn [repeat app] in Hw.
+      eapply (Hcons _ p1 _ [] Hn eq_refl He Hw1 Hok). unfold view. cbn [fst snd ev_unit]. rewrite Ht, Hdd. reflexivity.
+    + destruct Hok as (Hd & Hcd & Hok). subst fs. unfold stack in Hw. cbn [map app] in Hw.
       repeat (rewrite <- app_assoc in Hw; cbn [app] in Hw).
       destruct (step_cd p wt tt tb _ Hw Hcd) as (p1 & Hn & Ht & Hdd & He & Hw1).
-      eapply (Hcons _ p1 _ O Hn eq_refl He Hw1 Hok). unfold view. cbn [fst snd ev_unit]. rewrite Ht, Hdd. reflexivity.
-    + destruct Hok as (Hd & Hr1 & Hr2 & Hok). destruct depth as [|depth]; [lia|]. unfold stack in Hw. cbn [repeat app] in Hw.
+      eapply (Hcons _ p1 _ [] Hn eq_refl He Hw1 Hok). unfold view. cbn [fst snd ev_unit]. rewrite Ht, Hdd. reflexivity.
+    + destruct fs as [|[|] fs]; try contradiction. destruct Hok as (Hr1 & Hr2 & Hok). unfold stack in Hw. cbn [map frame_state app] in Hw.
       repeat (rewrite <- app_assoc in Hw; cbn [app] in Hw).
       destruct (step_custom p _ cw1 cname cw2 [58] craw [59] _ Hw Hr1 Hr2) as (p1 & Hn & Ht & Hdd & Hb & He & Hw1).
-      eapply (Hcons _ p1 _ (S depth) Hn eq_refl He Hw1 Hok). unfold view. cbn [fst snd ev_unit]. rewrite Ht, Hdd, Hb. reflexivity.
+      eapply (Hcons _ p1 _ (FRule :: fs) Hn eq_refl He Hw1 Hok). unfold view. cbn [fst snd ev_unit]. rewrite Ht, Hdd, Hb. reflexivity.
+    + destruct Hok as (Htop & Hh & Hp1 & Hp2 & Hok). destruct (rule_top_ctx fs Htop) as (s & st0 & Hstk & Hctx). rewrite Hstk in Hw.
+      repeat (rewrite <- app_assoc in Hw; cbn [app] in Hw).
+      destruct (step_at p s st0 aw1 aname apre aw2 (TSemicolon, [59]) _ ah Hctx Hw Hh Hp1 Hp2 (or_introl eq_refl)) as (p1 & Hn & Ht & Hdd & Hb & He & Hw1).
+      cbn [fst] in Hn, Hw1. change (is_t TSemicolon TSemicolon) with true in Hn, Hw1. cbv beta iota in Hn, Hw1. rewrite <- Hstk in Hw1.
+      eapply (Hcons _ p1 _ fs Hn eq_refl He Hw1 Hok). unfold view. cbn [fst snd ev_unit]. rewrite Ht, Hdd, Hb. reflexivity.
+    + destruct Hok as (Htop & Hh & Hk & Hp1 & Hp2 & Hok). destruct (rule_top_ctx fs Htop) as (s & st0 & Hstk & Hctx). rewrite Hstk in Hw.
+      repeat (rewrite <- app_assoc in Hw; cbn [app] in Hw).
+      destruct (step_at p s st0 bw1 bname bpre bw2 (TLeftBrace, [123]) _ bh Hctx Hw Hh Hp1 Hp2 (or_intror eq_refl)) as (p1 & Hn & Ht & Hdd & Hb & He & Hw1).
+      cbn [fst] in Hn, Hw1. change (is_t TLeftBrace TSemicolon) with false in Hn, Hw1. cbv beta iota in Hn, Hw1.
+      rewrite Hk, <- Hstk in Hw1. change (SAtRuleRuleList :: stack fs) with (stack (FAtRules :: fs)) in Hw1.
+      eapply (Hcons _ p1 _ (FAtRules :: fs) Hn eq_refl He Hw1 Hok). unfold view. cbn [fst snd ev_unit]. rewrite Ht, Hdd, Hb. reflexivity.
+    + destruct fs as [|[|] fs]; try contradiction. unfold stack in Hw. cbn [map frame_state app] in Hw.
+      repeat (rewrite <- app_assoc in Hw; cbn [app] in Hw).
+      destruct (step_endat p _ ew3 [125] _ Hw) as (p1 & Hn & Ht & Hdd & He & Hw1).
+      eapply (Hcons _ p1 _ fs Hn eq_refl He Hw1 Hok). unfold view. cbn [fst snd ev_unit]. rewrite Ht, Hdd. reflexivity.
 Qed.
 
 Lemma parse_run_snoc : forall a p tr1 r, parse_run a p = POk tr1 -> parse_next (last_state p tr1) = POk r ->
@@ -1084,13 +1380,13 @@ Qed.
    Declaration (lower-cased property name, expected_vals), EndRuleset - and then the end-of-input report; no parse
    error is reported. *)
 Lemma cssparse_wellformed_proof : forall d evs w,
-  css_lex d = LexDone (concat (map ev_toks evs) ++ optws w) -> evs_ok 0 evs ->
+  css_lex d = LexDone (concat (map ev_toks evs) ++ optws w) -> evs_ok [] evs ->
   exists tr, parse_run (length evs + 1) (new_parser d false) = POk tr /\
     map view tr = map ev_unit evs ++ [(GError, TError, [], [])] /\ no_err tr.
 Proof.
   intros d evs w Hlex Hok.
-  assert (Hw : wf_state (new_parser d false) (stack 0) (concat (map ev_toks evs) ++ optws w)).
-  { unfold wf_state, stack. cbn [repeat app new_parser pl pst plevel prevend keepws isstyle negb]. split; [apply css_inv_init|].
+  assert (Hw : wf_state (new_parser d false) (stack []) (concat (map ev_toks evs) ++ optws w)).
+  { unfold wf_state, stack. cbn [map app new_parser pl pst plevel prevend keepws isstyle negb]. split; [apply css_inv_init|].
     split; [exists (S (length d)); exact Hlex|]. auto. }
   destruct (evs_run evs _ _ _ Hw Hok) as (tr & Hrun & Hview & Hne & Hw').
   destruct (step_eof _ _ Hw') as (p' & Hn & He & Ht).
@@ -1106,7 +1402,7 @@ Example wellformed_example :
               EDecl (mkDecl None [99] None [(None, (TIdent, [120]))] None); EClose None;
               EOpen [(None, (TIdent, [100]))] None; EClose None] in
   css_lex [97; 123; 66; 58; 49; 59; 99; 58; 120; 59; 125; 100; 123; 125] = LexDone (concat (map ev_toks evs) ++ optws None) /\
-  evs_ok 0 evs.
+  evs_ok [] evs.
 Proof.
   cbv zeta. split; [vm_compute; reflexivity|].
   repeat (first [discriminate | reflexivity | lia | split]).
@@ -1120,7 +1416,7 @@ Example wellformed_example_ws :
               EOpen [(Some [10], (TIdent, [100]))] None; EClose None] in
   css_lex [32; 97; 32; 123; 10; 32; 66; 32; 58; 32; 49; 32; 59; 99; 58; 120; 59; 32; 125; 10; 100; 123; 125; 10] =
     LexDone (concat (map ev_toks evs) ++ optws (Some [10])) /\
-  evs_ok 0 evs.
+  evs_ok [] evs.
 Proof.
   cbv zeta. split; [vm_compute; reflexivity|].
   repeat (first [discriminate | reflexivity | lia | split]).
@@ -1136,7 +1432,7 @@ Example wellformed_example_values :
               EClose None] in
   css_lex [97; 123; 98; 58; 32; 49; 112; 120; 32; 32; 115; 111; 108; 105; 100; 32; 44; 32; 114; 101; 100; 32; 59;
            99; 58; 114; 103; 98; 40; 49; 44; 32; 50; 41; 59; 125] = LexDone (concat (map ev_toks evs) ++ optws None) /\
-  evs_ok 0 evs /\
+  evs_ok [] evs /\
   map ev_unit evs =
     [(GBeginRuleset, TWhitespace, [], [(TIdent, [97])]);
      (GDeclaration, TIdent, [98], [(TDimension, [49; 112; 120]); sp; (TIdent, [115; 111; 108; 105; 100]); (TComma, [44]); (TIdent, [114; 101; 100])]);
@@ -1155,7 +1451,7 @@ Example wellformed_example_selector :
   let evs := [EOpen sel None; EClose None] in
   css_lex [97; 32; 62; 32; 98; 32; 32; 99; 44; 100; 32; 91; 32; 120; 61; 121; 32; 93; 32; 101; 123; 125] =
     LexDone (concat (map ev_toks evs) ++ optws None) /\
-  evs_ok 0 evs /\
+  evs_ok [] evs /\
   expected_sel sel = [(TIdent, [97]); (TDelim, [62]); (TIdent, [98]); sp; (TIdent, [99]); (TComma, [44]); (TIdent, [100]); sp;
                       (TLeftBracket, [91]); (TIdent, [120]); (TDelim, [61]); (TIdent, [121]); (TRightBracket, [93]); sp; (TIdent, [101])].
 Proof.
@@ -1171,7 +1467,7 @@ Example wellformed_example_nested :
               EDecl (mkDecl None [103] None [(None, (TIdent, [104]))] None); EClose None] in
   css_lex [97; 123; 98; 32; 44; 32; 99; 32; 100; 123; 101; 58; 102; 59; 125; 103; 58; 104; 59; 125] =
     LexDone (concat (map ev_toks evs) ++ optws None) /\
-  evs_ok 0 evs /\
+  evs_ok [] evs /\
   map ev_unit evs =
     [(GBeginRuleset, TWhitespace, [], [(TIdent, [97])]);
      (GBeginRuleset, TWhitespace, [], [(TIdent, [98]); (TComma, [44]); (TIdent, [99]); sp; (TIdent, [100])]);
@@ -1193,7 +1489,7 @@ Example wellformed_example_misc :
               EToken None TCDC [45; 45; 62]] in
   css_lex [60; 33; 45; 45; 32; 47; 42; 99; 42; 47; 97; 123; 45; 45; 120; 58; 32; 49; 32; 47; 42; 107; 42; 47; 32; 40; 59; 41; 32; 59;
            38; 46; 98; 123; 125; 125; 45; 45; 62] = LexDone (concat (map ev_toks evs) ++ optws None) /\
-  evs_ok 0 evs /\
+  evs_ok [] evs /\
   map ev_unit evs =
     [(GToken, TCDO, [60; 33; 45; 45], []); (GComment, TComment, [47; 42; 99; 42; 47], []);
      (GBeginRuleset, TWhitespace, [], [(TIdent, [97])]);
@@ -1203,4 +1499,34 @@ Example wellformed_example_misc :
 Proof.
   cbv zeta. split; [vm_compute; reflexivity|]. split; [|vm_compute; reflexivity].
   repeat (first [discriminate | reflexivity | lia | split]).
+Qed.
+
+(* "@import url(x) s;@MEDIA (m:1px) and (x: y),p{a{b:c;}}" : the prelude keeps the whitespace after the at-keyword and between
+   words, drops it after '(' , before ')' and around ':' and ','; @MEDIA is lower-cased and hashes to Media (a rule block) *)
+Example wellformed_example_at :
+  let h_import := 0 in
+  let pre1 := [(Some [32], (TURL, [117; 114; 108; 40; 120; 41])); (Some [32], (TIdent, [115]))] in
+  let pre2 := [(Some [32], (TLeftParenthesis, [40])); (None, (TIdent, [109])); (None, (TColon, [58])); (None, (TDimension, [49; 112; 120]));
+               (None, (TRightParenthesis, [41])); (Some [32], (TIdent, [97; 110; 100])); (Some [32], (TLeftParenthesis, [40]));
+               (None, (TIdent, [120])); (None, (TColon, [58])); (Some [32], (TIdent, [121])); (None, (TRightParenthesis, [41]));
+               (None, (TComma, [44])); (None, (TIdent, [112]))] in
+  let evs := [EAtRule None [64; 105; 109; 112; 111; 114; 116] pre1 None h_import;
+              EBeginAtRule None [64; 77; 69; 68; 73; 65] pre2 None 9733;
+              EOpen [(None, (TIdent, [97]))] None; EDecl (mkDecl None [98] None [(None, (TIdent, [99]))] None); EClose None;
+              EEndAtRule None] in
+  css_lex [64; 105; 109; 112; 111; 114; 116; 32; 117; 114; 108; 40; 120; 41; 32; 115; 59;
+           64; 77; 69; 68; 73; 65; 32; 40; 109; 58; 49; 112; 120; 41; 32; 97; 110; 100; 32; 40; 120; 58; 32; 121; 41; 44; 112; 123;
+           97; 123; 98; 58; 99; 59; 125; 125] = LexDone (concat (map ev_toks evs) ++ optws None) /\
+  evs_ok [] evs /\
+  map ev_unit evs =
+    [(GAtRule, TAtKeyword, [64; 105; 109; 112; 111; 114; 116], [sp; (TURL, [117; 114; 108; 40; 120; 41]); sp; (TIdent, [115])]);
+     (GBeginAtRule, TAtKeyword, [64; 109; 101; 100; 105; 97],
+        [(TLeftParenthesis, [40]); (TIdent, [109]); (TColon, [58]); (TDimension, [49; 112; 120]); (TRightParenthesis, [41]); sp;
+         (TIdent, [97; 110; 100]); sp; (TLeftParenthesis, [40]); (TIdent, [120]); (TColon, [58]); (TIdent, [121]); (TRightParenthesis, [41]);
+         (TComma, [44]); (TIdent, [112])]);
+     (GBeginRuleset, TWhitespace, [], [(TIdent, [97])]); (GDeclaration, TIdent, [98], [(TIdent, [99])]);
+     (GEndRuleset, TRightBrace, [125], []); (GEndAtRule, TRightBrace, [125], [])].
+Proof.
+  cbv zeta. split; [vm_compute; reflexivity|]. split; [|vm_compute; reflexivity].
+  repeat (first [discriminate | reflexivity | lia | split | exact I | vm_compute; reflexivity]).
 Qed.
